@@ -441,6 +441,9 @@ loc["hasname"] = [
     262,
 ]
 loc["hasfree"] = [64, 84, 89, 94, 109]
+# SETUP_CLEANUP, SETUP_FINALLY and SETUP_WITH pseudo-ops
+loc["hasexc"] = [264, 265, 266]
+
 # add new table "hasjump"
 loc.update({"hasjump": [72, 77, 78, 79, 97, 98, 99, 100, 104, 256, 257]})
 loc["hasjrel"] = loc["hasjump"]
